@@ -241,7 +241,9 @@ func sweepFloat32(run *vlib.Run, workers int, deadline time.Time) *agg {
 				if time.Now().After(deadline) {
 					break
 				}
-				hi := uint64(c-65536) << 16
+				// visit the chunks in a fixed scattered order (odd multiplier = bijection on 16 bits) so
+				// that a deadline cut still leaves every exponent band partly covered
+				hi := (uint64(c-65536) * 40503 & 0xffff) << 16
 				for lo := uint64(0); lo < 65536; lo++ {
 					if lo&0x7f == 0 {
 						continue // done in phase A
@@ -420,6 +422,9 @@ func main() {
 	}
 	run.Set("values_per_family", cellCount)
 	if c, ok := run.Cov["state_cap_hit"]; ok && c == true {
+		exhaustive = false
+	}
+	if c, ok := run.Cov["pair_replay_budget_hit"]; ok && c == true {
 		exhaustive = false
 	}
 	if c, ok := run.Cov["witness_cap_hit"]; ok && c == true {
